@@ -82,9 +82,9 @@ void encode_dispatch_data(void)
 }
 
 /* ---------------- the registrations the decoding process holds ---------------- */
-typedef struct definition_info { void *pf; } definition_info;
+typedef struct definition_info { uintptr_t pf; } definition_info;      /* void* in C++; only ever cast to uintptr_t by the decoder */
 typedef struct { definition_info *data; size_t n; } vec_definition_info;
-typedef struct method_info { size_t *slots_strides_ptr; size_t arity_; vec_definition_info specs; void *ambiguous, *not_implemented; } method_info;
+typedef struct method_info { size_t *slots_strides_ptr; size_t arity_; vec_definition_info specs; uintptr_t ambiguous, not_implemented; } method_info;
 typedef struct class_info { uintptr_t **static_vptr; } class_info;
 typedef struct { method_info *data; size_t n; } vec_method_info;
 typedef struct { class_info *data; size_t n; } vec_class_info;
@@ -98,8 +98,15 @@ typedef struct { struct { uint16_t *slots; uint16_t *vtbls; } encoded; uintptr_t
 uint16_t *g_enc; uintptr_t *g_dec; uintptr_t *g_dtb; size_t g_H, g_S, g_E, g_W, g_T;
 #define ENC_BYTE_OFFSET(p) (2 * (size_t)((p) - g_enc))
 #define DEC_BYTE_OFFSET(p) (8 * (size_t)((p) - g_dec))
-/* alloca */
-static void *yv_alloca(size_t n) { return malloc(n ? n : 1); }
+/* alloca: typed arenas with a bump pointer (CBMC's byte-level model of an untyped malloc'd block that holds both
+   pointers and integers produced a spurious mix of two stored words; natively the same C text round-trips) */
+#define ARENA(T, name) static T name##_pool[64]; static size_t name##_top; \
+    static T *name(size_t bytes) { size_t n = bytes / sizeof(T); T *r = &name##_pool[name##_top]; \
+        __CPROVER_assert(name##_top + n <= 64, "harness: alloca arena capacity"); name##_top += n; return r; }
+ARENA(method_info *, yv_alloca_mipp)
+ARENA(uintptr_t *, yv_alloca_wordpp)
+ARENA(uintptr_t, yv_alloca_wordp)
+ARENA(size_t, yv_alloca_sizep)
 static void yv_copy_n_u16(const uint16_t *src, size_t n, size_t *dst) { for (size_t i = 0; i < n; ++i) dst[i] = src[i]; }
 size_t g_publish_calls;
 static void policy_publish_vptrs(void) { ++g_publish_calls; }
@@ -153,8 +160,8 @@ void h_codec(void)
         }
         /* the registration record of the same method in the decoding process */
         g_mi[m].arity_ = ar; g_mi[m].slots_strides_ptr = g_ss[m]; g_mi[m].specs.data = g_di[m]; g_mi[m].specs.n = cfg_ns[m];
-        for (size_t k = 0; k < NSPEC; ++k) g_di[m][k].pf = (void *)g_m[m].specs.data[k].pf;
-        g_mi[m].ambiguous = (void *)g_m[m].ambiguous.pf; g_mi[m].not_implemented = (void *)g_m[m].not_implemented.pf;
+        for (size_t k = 0; k < NSPEC; ++k) g_di[m][k].pf = g_m[m].specs.data[k].pf;
+        g_mi[m].ambiguous = g_m[m].ambiguous.pf; g_mi[m].not_implemented = g_m[m].not_implemented.pf;
         for (size_t k = 0; k < 2 * MAXAR; ++k) g_ss[m][k] = nondet_size_t();
     }
     for (size_t c = 0; c < NCLASS; ++c) {
@@ -183,6 +190,40 @@ void h_codec(void)
         if (k < S && k < g_cnt[0]) d.encoded.slots[k] = g_out[0][k];
         if (k < E && k < g_cnt[1]) d.encoded.vtbls[k] = g_out[1][k];
         if (k < T && k < g_cnt[2]) d.dtbls[k] = g_out[2][k];
+    }
+    /* ---- what the decoder will see: a reference parse of the emitted v-table codes (first slot, then entries up to
+            the one carrying the stop bit; an entry is one code with the index bit or two codes) ---- */
+    {
+        size_t pos = 0, words = 0; _Bool ok = 1;
+        size_t want = 0;
+        for (size_t c = 0; c < NCLASS; ++c) if (c < nc) want += cfg_vt[c];
+        __CPROVER_assert(W == want, "C13 the declared decoded v-table array holds exactly the v-table words of all classes");
+        if (W < want) ok = 0;
+        for (size_t c = 0; c < NCLASS; ++c) {
+            if (c >= nc || !ok) continue;
+            size_t w0 = words; _Bool stop = 0;
+            /* first slot */
+            if (!(pos < E)) { ok = 0; continue; }
+            if (!(2 * (H + S + pos + 1) >= 8 * words)) ok = 0;
+            stop = (g_out[1][pos] & stop_bit) != 0; ++pos;
+            for (size_t k = 0; k < NVT + 2; ++k) {
+                if (stop || !ok) break;
+                if (!(pos < E)) { ok = 0; break; }
+                if (!(2 * (H + S + pos + 1) >= 8 * words)) ok = 0;
+                uint16_t code = g_out[1][pos]; stop = (code & stop_bit) != 0; ++pos;
+                if (!(code & index_bit)) {
+                    if (!(pos < E)) { ok = 0; break; }
+                    if (!(2 * (H + S + pos + 1) >= 8 * words)) ok = 0;
+                    stop = (g_out[1][pos] & stop_bit) != 0; ++pos;
+                }
+                ++words;
+            }
+            if (!stop || words - w0 != cfg_vt[c]) ok = 0;
+        }
+        if (pos != E) ok = 0;
+        __CPROVER_assert(ok, "C13 the emitted v-table codes form, class by class, exactly the sequences the decoder parses (a stop code ends each class, also one without entries) "
+                             "and leave enough headroom for decoding in place");
+        __CPROVER_assume(ok);       /* the real decoder is run on streams it can parse; anything else is already reported */
     }
     g_publish_calls = 0;
 
@@ -315,6 +356,7 @@ ENC_RULES = [
     X.Rule('range(begin, end)', r'\brange\(\s*cmethods\.begin\(\),\s*cmethods\.end\(\)\s*\)', 'cmethods', 1, 1),
     X.Rule('method.arity()', r'\bmethod\.arity\(\)', 'METHOD_ARITY(method)'),
     X.Rule('x.size()', r'\b([\w.>-]+)\.size\(\)', r'VEC_SIZE(\1)'),
+    X.Rule('vtbl.empty()', r'\b([\w.>-]*vtbl)\.empty\(\)', r'(VEC_SIZE(\1) == 0)'),
     accumulate_stmt,
     X.Rule('local vector of method pointers', r'std::vector<const generic_compiler::method\*>\s+methods\s*;', 'vec_methodp methods; methods.n = 0;', 1, 1),
     X.Rule('methods.resize', r'\bmethods\.resize\(([^;]+)\)\s*;', r'methods.n = \1;', 1, 1),
@@ -369,7 +411,10 @@ DEC_RULES = [
     X.Rule('Policy::publish_vptrs', r'Policy::publish_vptrs\(\s*Policy::classes\.begin\(\),\s*Policy::classes\.end\(\)\s*\)\s*;', 'policy_publish_vptrs();', 1, 1),
     X.Rule('Policy::methods', r'Policy::methods\b', 'yv_methods'),
     X.Rule('Policy::classes', r'Policy::classes\b', 'yv_classes'),
-    X.Rule('alloca', r'\balloca\(', 'yv_alloca('),
+    X.Rule('(method_info**)alloca', r'\(method_info\*\*\)\s*alloca\(', 'yv_alloca_mipp('),
+    X.Rule('(uintptr_t**)alloca', r'\((?:std::)?uintptr_t\*\*\)\s*alloca\(', 'yv_alloca_wordpp('),
+    X.Rule('(uintptr_t*)alloca', r'\((?:std::)?uintptr_t\*\)\s*alloca\(', 'yv_alloca_wordp('),
+    X.Rule('(size_t*)alloca', r'\((?:std::)?size_t\*\)\s*alloca\(', 'yv_alloca_sizep('),
     X.Rule('std::copy_n', r'std::copy_n\(', 'yv_copy_n_u16(', 1, 1),
     X.Rule('specs = std::transform(specs -> pf)',
            r'(\w+)\s*=\s*std::transform\(\s*method\.specs\.begin\(\),\s*method\.specs\.end\(\),\s*\1,\s*\[\]\(auto&\s*(\w+)\)\s*\{\s*return\s+\(uintptr_t\)\2\.pf;\s*\}\s*\)\s*;',
@@ -397,7 +442,7 @@ def make_decoder():
     body = body.replace('__typeof__(YV_ELEM) *const cls_p', 'class_info *const cls_p')
     body = body.replace('__typeof__(YV_ELEM) *const spec_p', 'definition_info *const spec_p')
     left = re.sub(r'__auto_type|__typeof__', '', body)
-    if re.search(r'\bauto\b|std::|Policy::|YV_ELEM|\btrace\b|\[&\]', left):
+    if re.search(r'\bauto\b|std::|Policy::|YV_ELEM|\btrace\b|\[&\]|\balloca\(', left):
         raise X.ExtractionBroken('decode_dispatch_data: untranslated C++ left: %s' % re.findall(r'[^\n]*(?:\bauto\b|std::|Policy::|YV_ELEM|\btrace\b)[^\n]*', left)[:3])
     ex.body = body
     return ex, fetch
@@ -459,7 +504,7 @@ def jobs(tier):
                        trusted=['ostream insertions as appends to a ghost log: numbers per section, the literals closing a section switch sections; '
                                 'snprintf of the declaration records the five declared array sizes',
                                 'the emitted structure as one byte buffer laid out as the declared union + dtbls (LP64, 16-bit codes, 8-byte words)',
-                                'alloca as malloc; std::accumulate / std::transform / std::copy_n as their defining loops; the fetch lambda as a function over the three captured locals',
+                                'alloca as typed bump arenas; std::accumulate / std::transform / std::copy_n as their defining loops; the fetch lambda as a function over the three captured locals',
                                 'Policy::methods / classes of the decoding process hold the same registrations in the same order as the compiler\'s vectors'],
                        assumptions=['v-table entries name an existing method, one of its virtual parameters and a group below its table size; dispatch cells are definitions or the two error entries (augment_methods / build_dispatch_tables, not under contract)',
                                     'compilability of the emitted text beyond "declared sizes match what is emitted and do not wrap" is not checked'],
